@@ -270,17 +270,18 @@ class Run:
             if "t" in ag:
                 self.agent_timers.append(self.loop.call_at(ag["t"], fire))
             else:
+                self.loop.call_soon(self._agent_tick, ag["at"], fire)
 
-                def tick(n: int, fire=fire) -> None:  # noqa: ANN001
-                    if self.finished or self.aborted:
-                        return
+    def _agent_tick(self, n: int, fire: Any) -> None:
+        # (a method, not a closure: a nested function re-scheduling itself by name would
+        # be rebound to the last agent's closure by the loop above)
+        if self.finished or self.aborted:
+            return
 
-                    if n <= 0:
-                        fire()
-                    else:
-                        self.loop.call_soon(tick, n - 1)
-
-                self.loop.call_soon(tick, ag["at"])
+        if n <= 0:
+            fire()
+        else:
+            self.loop.call_soon(self._agent_tick, n - 1, fire)
 
     def do_sync_op(self, who: Any, op: list) -> None:
         """cancel / cancel_task / shield / deadline / set -- performed on the shadow first
@@ -895,7 +896,9 @@ class Run:
     def clean_region(self, tid: Any) -> bool:
         """No scope still enclosing the task is cancelled (shielded or not -- a cancelled
         ancestor legitimately keeps the native cancellation requests it issued until its
-        own exit), and the task was not effectively cancelled a moment ago."""
+        own exit).  (An earlier version also skipped tasks that had been effectively
+        cancelled a cycle ago; that hid the exit of every cancelled outermost scope, i.e.
+        exactly where a lost uncancel() shows -- seeded change C05.)"""
         n = self.sh.top(tid)
         while n is not None:
             if n.cancelled:
@@ -903,7 +906,7 @@ class Run:
 
             n = n.parent
 
-        return not self.recently_eff(tid)
+        return True
 
     def recent_change(self, n: Node) -> bool:
         """was a shield / cancel state on n's chain changed in this or the previous cycle
